@@ -35,7 +35,7 @@ ASSUMPTIONS = ["a chain is treated as well-formed only if every one of its secto
                "entries (none for the head) and it ends in an end marker; anything else is only required to terminate",
                "a Roland table containing a stray error/reserved/free-terminated chain elsewhere may be rejected as a whole",
                "step clock = sys.monitoring PY_START+JUMP; budgets are >=20x the cost of a clean resolution"]
-EXPECTED_PROBES = ["akai_head_not_lowest", "akai_reserved_run", "fault_cycle", "fault_self", "fault_cross", "fault_oob",
+EXPECTED_PROBES = ["akai_head_not_lowest", "chain_of_900_plus_sectors", "akai_reserved_run", "fault_cycle", "fault_self", "fault_cross", "fault_oob",
                    "fault_into_free", "roland_chain_permuted", "wellformed_table", "malformed_elsewhere", "chain_malformed"]
 EXHAUSTIVE = {"quick": False, "thorough": False}
 SHRINK = {"max_attempts": 400, "max_seconds": 40.0}
@@ -187,6 +187,19 @@ def _gen_akai(rng: random.Random) -> dict:
         if g < n and g not in region and g not in words:
             region.append(g)
     chains, pool = _gen_chains(rng, region, rng.randint(1, 8), 9, forbid_link_to=(0,))
+    if real and rng.random() < 0.3:
+        # one big file: a chain of up to 2048 sectors (16 MiB), far longer than any Python-level nesting limit
+        L = rng.choice([300, 900, 1000, 1100, 1500, 2048])
+        a = rng.randint(300, n - L - 2)
+        ch = list(range(a, a + L))
+        how = rng.choice(["asc", "asc", "desc", "swapped"])
+        if how == "desc":
+            ch.reverse()
+        elif how == "swapped":
+            for _ in range(L // 10):
+                i = rng.randrange(1, L - 1)
+                ch[i], ch[i + 1] = ch[i + 1], ch[i]
+        chains.append(ch)
     for ch in chains:
         for a, b in zip(ch, ch[1:]):
             words[a] = b
@@ -440,7 +453,7 @@ def _run_akai(sc: dict, res: RunResult) -> None:
     if small:
         data = b"".join(_sector_fill(i, AK_SECT) for i in range(n))
     else:
-        hi = max([int(k) for k in sc.get("sparse", {})] + [8]) + 2
+        hi = min(400, max([int(k) for k in sc.get("sparse", {})] + [8]) + 2)       # sectors backed by data; longer chains are resolved only
         data = b"".join(_sector_fill(i, AK_SECT) for i in range(min(n, hi)))
     sf = SimFile(data)
     raw = struct.pack("<%dH" % n, *t)
@@ -464,8 +477,12 @@ def _run_akai(sc: dict, res: RunResult) -> None:
         if ok and t[start] in (A_RES, A_RES2):
             res.probes["akai_reserved_run"] += 1
         got = _resolve(res, "akai", lambda: sat.get_path(start), 3000 + 60 * n, start)
+        backed = bool(exp) and (max(exp) + 1) * AK_SECT <= len(data)
+        if ok and len(exp) >= 900:
+            res.probes["chain_of_900_plus_sectors"] += 1
         _judge(res, sc, "akai", start, exp, ok, whole_ok, got,
-               lambda lst: sat.get_segment(start), lambda lst: b"".join(data[s * AK_SECT:(s + 1) * AK_SECT] for s in lst), AK_SECT)
+               (lambda lst: sat.get_segment(start)) if backed or not exp else None,
+               lambda lst: b"".join(data[s * AK_SECT:(s + 1) * AK_SECT] for s in lst), AK_SECT)
     res.io_events += sf.io_events
 
 
@@ -615,14 +632,11 @@ def _judge(res, sc, target, start, exp, chain_ok, whole_ok, out, mk_stream, expe
             tail = st.read(1)
             st2 = mk_stream(got)
             again = st2.read(len(exp) * sect)
-            if again != data:
-                data = again
             # ... also when the first part is fetched with a sized read and the rest with read-to-end
             st3 = mk_stream(got)
             k = min(len(exp) * sect, 150)
             part = st3.read(k) + st3.read(-1)
-            if part != data and again == data:
-                data = part
+            reads = [data, again, part]
         res.steps += clk.steps
     except StepBudgetExceeded:
         StepClock.acknowledge()
@@ -633,6 +647,7 @@ def _judge(res, sc, target, start, exp, chain_ok, whole_ok, out, mk_stream, expe
                 exc=type(e).__name__)
         return
     want = expect_bytes(exp)
+    data = next((r for r in reads if r != want), data)      # every way of reading must give the concatenation
     if data != want or tail != b"":
         res.add(PROP, "stream_bytes", "%s: stream over %s returned %d bytes (+%d), expected %d; first diff at %s" % (
             target, got, len(data), len(tail), len(want), _first_diff(data, want)), target=target)
